@@ -137,6 +137,19 @@ def directed_scenarios():
              ({"o": {"a": 1}, "q": {"k": 1, "n": "x"}}, {"o": {"a": 1}, "q": {"k": 1, "n": "y"}})]
     for dexpr in ("x: o && q", "x: o ? q : o", "x: q, y: o", "...q, k: o.a", "x: [o, q][1]", "x: {k: q.k, n: q.n}"):
         out.append(('<template name="t">{{x.k}}{{x.n}}{{k}}{{n}}</template><template is="t" data="{{ %s }}"/>' % dexpr, tdata))
+    # duplicate keys: one item's key changes, so the keys made unique (x--0, x--1 …) move to other items
+    dup = [{"k": "x", "p": 1}, {"k": "x", "p": 2}, {"k": "x", "p": 3}, {"k": "y", "p": 4}]
+    dup_t = [[{"k": "z", "p": 1}, {"k": "x", "p": 2}, {"k": "x", "p": 3}, {"k": "y", "p": 4}],
+             [{"k": "x", "p": 1}, {"k": "y", "p": 2}, {"k": "x", "p": 3}, {"k": "y", "p": 4}],
+             [{"k": "x", "p": 1}, {"k": "x", "p": 2}, {"k": "x", "p": 3}, {"k": "x", "p": 4}],
+             [{"p": 1}, {"k": "x", "p": 2}, {"k": "x", "p": 3}, {"k": "y", "p": 4}],
+             [{"k": "x", "p": 1}, {"k": "x", "p": 2}, {"k": None, "p": 3}, {"k": "y", "p": 4}]]
+    dobj = {"p": None, "k": 0, "zz": ["x"], "w": {"k": "q"}}
+    dobj_t = [{"p": {"k": "q"}, "k": 0, "zz": ["x"], "w": {"k": "q"}}, {"p": None, "k": {"k": 1}, "zz": ["x"], "w": {"k": "q"}},
+              {"p": None, "k": 0, "zz": ["x"], "w": {"k": None}}, {"p": None, "k": 0, "zz": {"k": "q"}, "w": {"k": "q"}}]
+    for body in ("{{item.p}}", "{{index}}:{{item.p}}", "{{item}}"):
+        out.append(('<view wx:for="{{l}}" wx:key="k">%s</view>' % body, [({"l": dup}, {"l": t}) for t in dup_t] + [({"l": t}, {"l": dup}) for t in dup_t] +
+                    [({"l": dobj}, {"l": t}) for t in dobj_t] + [({"l": t}, {"l": dobj}) for t in dobj_t]))
     # every attribute family: a value that becomes undefined / null / empty and comes back
     U = {"$": "undefined"}
     trans = [({"s": a}, {"s": b}) for a in ("x", U, None, "") for b in ("y", U, None, "") if json.dumps(a) != json.dumps(b)]
